@@ -57,10 +57,39 @@ func c11SortArgType(pk *packages.Package, fi *FuncInfo) *types.Named {
 func c11FindComparator(pk *packages.Package, sfi *FuncInfo) (*c11Cmp, string) {
 	it := c11NewInterp(pk)
 	outs, fr := it.run(sfi, nil)
-	if len(c11PathNotes(it, outs)) > 0 || len(outs) != 1 {
-		return nil, "a single straight-line call of sort.Sort / sort.Slice"
+	if len(c11PathNotes(it, outs)) > 0 || len(outs) == 0 {
+		return nil, "a call of sort.Sort / sort.Slice on every path"
 	}
-	st := outs[0].st
+	// The path that sorts; a path that returns without sorting must have decided that there is nothing to
+	// order (fewer than two elements), in any spelling.
+	var st *c11St
+	recvO := c11RecvObj(pk.TypesInfo, sfi.Decl)
+	for _, o := range outs {
+		sorts := false
+		for _, ev := range o.st.ev {
+			if ev.kind == "call" && ev.call.fn != nil && ev.call.fn.Pkg() != nil && ev.call.fn.Pkg().Path() == "sort" {
+				sorts = true
+			}
+		}
+		if sorts {
+			if st == nil {
+				st = o.st
+			}
+			continue
+		}
+		trivial := false
+		if recvO != nil {
+			n := &c11V{k: "call", name: "len", xs: []*c11V{c11Param(recvO)}}
+			trivial = o.st.truth(c11Bin(token.LSS, n, c11Int(2))) == c11T || o.st.truth(c11Bin(token.LSS, n, c11Int(1))) == c11T ||
+				o.st.truth(c11Bin(token.LSS, c11Int(1), n)) == c11F || o.st.truth(c11Bin(token.EQL, n, c11Int(0))) == c11T || o.st.truth(c11Bin(token.EQL, n, c11Int(1))) == c11T
+		}
+		if !trivial {
+			return nil, "a path of the sort method returns without sorting although it has not decided that there are fewer than two elements; a call of sort.Sort / sort.Slice on every other path"
+		}
+	}
+	if st == nil {
+		return nil, "a call of sort.Sort / sort.Stable / sort.Slice"
+	}
 	for _, ev := range st.ev {
 		if ev.kind != "call" || ev.call.fn == nil {
 			continue
